@@ -1,0 +1,5 @@
+//go:build !verif
+
+package decoration // import "go.pennock.tech/tabular/texttable/decoration"
+
+func simYield(string) {}
